@@ -19,18 +19,21 @@ HARNESSES = [
 CMDS = ["l", "lv", "v", "vv"]
 RU = {"c19_compare.0": 97, "lha_arch_vasprintf.0": 17}
 HARNESSES += [
-    dict(name="head."+n, src="C19/rows.c", defines=["WHICH=2", "CMD=%d" % c, "SL=2", "OUT_TOKENS=96", "OUT_MAXSTR=12", "VAS_MAX=16"], unwindset=U(**RU), units=LIST_UNITS, timeout=180, mem_gb=3)
-    for c, n in enumerate(CMDS)
-] + [
-    dict(name="foot."+n, src="C19/rows.c", defines=["WHICH=3", "CMD=%d" % c, "SL=2", "OUT_TOKENS=96", "OUT_MAXSTR=12", "VAS_MAX=16"], unwindset=U(**RU), units=LIST_UNITS, timeout=180, mem_gb=3, backend="cvc5")
+    dict(name="head."+n, src="C19/heads.c", defines=["WHICH=2", "CMD=%d" % c, "SL=2", "OUT_TOKENS=96", "OUT_MAXSTR=12", "VAS_MAX=16"], unwindset=U(**RU), units=LIST_UNITS, timeout=180, mem_gb=3)
     for c, n in enumerate(CMDS)
 ]
 STUBBED = ["permission_column_print", "unix_uid_gid_column_print", "packed_column_print", "size_column_print", "ratio_column_print", "method_crc_column_print",
            "timestamp_column_print", "full_timestamp_column_print", "name_column_print", "whole_line_name_column_print", "header_level_column_print",
            "permission_column_footer", "unix_uid_gid_column_footer", "packed_column_footer", "size_column_footer", "ratio_column_footer",
-           "timestamp_column_footer", "full_timestamp_column_footer"]
+           "timestamp_column_footer", "full_timestamp_column_footer", "print_list_headings", "print_list_separators"]
 HARNESSES += [
-    dict(name="comp."+n, src="C19/comp.c", defines=["CMD=%d" % c, "NHDR=3", "SL=1", "OUT_TOKENS=400", "OUT_MAXSTR=12", "VAS_MAX=16"], rename_defs={"src/list.c": STUBBED},
-         unwindset=U(**{"c19_compare.0": 401, "harness.0": 4, "harness.1": 5, "harness.2": 4, "ref_listing.0": 4, "list_file_contents.0": 5}), units=LIST_UNITS, timeout=300, mem_gb=4, object_bits=14, flags=["--max-field-sensitivity-array-size", "512"])
+    dict(name="comp."+n, src="C19/comp.c", defines=["CMD=%d" % c, "NHDR=3", "SL=1", "OUT_TOKENS=128", "OUT_MAXSTR=12", "VAS_MAX=16"], rename_defs={"src/list.c": STUBBED},
+         unwindset=U(**{"c19_compare.0": 129, "harness.0": 4, "harness.1": 5, "harness.2": 4, "ref_listing.0": 4, "list_file_contents.0": 5}), units=LIST_UNITS, timeout=300, mem_gb=4, object_bits=14, flags=["--max-field-sensitivity-array-size", "128"])
     for c, n in enumerate(CMDS)
+]
+HARNESSES += [
+    dict(name="e2e."+n+v, src="C19/e2e.c", defines=["CMD=%d" % c, "NHDR=2", "SL=1", "OUT_TOKENS=512", "OUT_MAXSTR=12", "VAS_MAX=16"] + (["E2E_OS9=1"] if v else []),
+         unwindset=U(**{"c19_compare.0": 513, "harness.0": 3, "ref_listing.0": 3, "e2e_method.0": 7}), units=LIST_UNITS, timeout=400, mem_gb=5, object_bits=14,
+         flags=["--max-field-sensitivity-array-size", "512"])
+    for c, n in enumerate(CMDS) for v in (["", ".os9"] if c in (0, 3) else [""])
 ]
